@@ -188,6 +188,18 @@ check('C17', 'fault_enumeration',
       'exhaustive single-fault enumeration over every allocation index of every operation in every state of '
       'a BFS state space', 'E3', 'DESIGN.md §4 C17')
 
+check('C15', 'exploration',
+      'From every reachable shape (N=4 @2/2, all four kinds, both implementations, C under AddressSanitizer) '
+      'every iterator / lazy-sequence form (iter, iterkeys, itervalues, iteritems, keys/values/items with no, '
+      'a present and a gap bound) is driven to its end by the default schedule (sequences: ascending indexes, '
+      'len, descending indexes); every schedule deviating by one mutation from the full alphabet (insert or '
+      'delete of every universe key, pop, clear, dropping the last container reference) at every step, and '
+      'by two mutations of a reduced alphabet at every pair of steps, is executed: each step must yield a '
+      'genuine entry, end the iteration or raise RuntimeError/IndexError, and the container must afterwards '
+      'be sound and equal the model of the mutations alone.',
+      TB, 'deviation-bounded exhaustive enumeration of iterator/mutation interleavings over a BFS state space',
+      'E3', 'DESIGN.md §4 C15')
+
 PENDING = ['C%02d' % i for i in range(1, 20)]
 
 
